@@ -3,10 +3,110 @@ impl ParseISO8601<DateTime<FixedOffset>> for DateTime<FixedOffset> {
 //@ fn chronoutil.rs impl ParseISO8601<DateTime<FixedOffset>> for DateTime<FixedOffset> :: parse_from_iso8601
 //@ props C08 C16
 //@ ret r
-//@ attr #[verifier::external_body] // TEMP until unit time
+//@ replace 1 `offset_str.replace(':', "")` => `str_remove_char(offset_str, ':')`
+//@ replace 1 `offset_condensed.split_at(1)` => `str_split_at_ascii(string_as_str(&offset_condensed), 1)`
+//@ replace 1 `hm.split_at(2)` => `str_split_at_ascii(hm, 2)`
 //@ spec
         ensures
             iso_instant(s.spec_bytes()) is Some ==> r is Ok && r->Ok_0.ns == iso_instant(s.spec_bytes())->Some_0, //# C16 name=accepted_string_denotes_reference_instant
             iso_instant(s.spec_bytes()) is None ==> r is Err, //# C16 name=other_strings_refused
+//@ bodystart
+        hide(group_named);
+        proof {
+            reveal_strlit("Z"); reveal_strlit("-");
+            assert("Z"@ =~= seq!['Z']); assert("-"@ =~= seq!['-']);
+            vstd::utf8::is_ascii_chars_encode_utf8("Z"@); vstd::utf8::is_ascii_chars_encode_utf8("-"@);
+            assert("Z".spec_bytes() =~= seq![0x5au8]); assert("-".spec_bytes() =~= seq![0x2du8]);
+        }
+//@ after 1 `if let Some(cap) = ISO_8601_REGEX.captures(s) {`
+            let ghost g = cap.g;
+            proof {
+                lemma_group_names(g);
+                lemma_dec_bound(g.year); lemma_dec_bound(g.month); lemma_dec_bound(g.day); lemma_dec_bound(g.hour); lemma_dec_bound(g.minute); lemma_dec_bound(g.second);
+                assert(pow10(2) == 100 && pow10(4) == 10000 && pow10(9) == 1_000_000_000) by { reveal_with_fuel(pow10, 10); }
+            }
+//@ before 1 `while frac_str.len() < 9 {`
+                    proof {
+                        assert(str_bytes(frac_str@) =~= g.frac->Some_0 + Seq::new(0nat, |i: int| 0x30u8));
+                    }
+//@ loop 1
+                        invariant
+                            g.frac is Some, all_digits(g.frac->Some_0), g.frac->Some_0.len() >= 1,
+                            str_bytes(frac_str@).len() >= g.frac->Some_0.len(),
+                            str_bytes(frac_str@) == g.frac->Some_0 + Seq::new((str_bytes(frac_str@).len() - g.frac->Some_0.len()) as nat, |i: int| 0x30u8),
+                            g.frac->Some_0.len() >= 9 ==> str_bytes(frac_str@) == g.frac->Some_0,
+                            g.frac->Some_0.len() < 9 ==> str_bytes(frac_str@).len() <= 9,
+                        decreases 9 - str_bytes(frac_str@).len()
+//@ before 1 `frac_str.push('0');`
+                        let ghost fs0 = frac_str@;
+//@ after 1 `frac_str.push('0');`
+                        proof {
+                            lemma_str_bytes_push_ascii(fs0, '0');
+                            let f = g.frac->Some_0;
+                            let k = str_bytes(fs0).len() - f.len();
+                            assert(str_bytes(frac_str@) =~= f + Seq::new((k + 1) as nat, |i: int| 0x30u8));
+                        }
+//@ before 1 `frac_str.truncate(9);`
+                    proof {
+                        let f = g.frac->Some_0;
+                        assert(all_ascii(str_bytes(frac_str@))) by {
+                            assert forall|i: int| 0 <= i < str_bytes(frac_str@).len() implies str_bytes(frac_str@)[i] < 128 by {
+                                if i < f.len() { assert(str_bytes(frac_str@)[i] == f[i]); }
+                            }
+                        }
+                    }
+//@ after 1 `frac_str.truncate(9);`
+                    proof {
+                        let f = g.frac->Some_0;
+                        assert(str_bytes(frac_str@) =~= frac9(f));
+                        assert(all_digits(frac9(f))) by {
+                            assert forall|i: int| 0 <= i < frac9(f).len() implies is_digit(#[trigger] frac9(f)[i]) by {
+                                if i < f.len() { assert(frac9(f)[i] == f[i]); }
+                            }
+                        }
+                        lemma_dec_bound(frac9(f));
+                    }
+//@ before 1 `let offset_secs = if offset_str == "Z" {`
+            proof {
+                lemma_str_bytes_inj(offset_str@, "Z"@);
+            }
+//@ after 1 `let offset_condensed = offset_str.replace(':', "");`
+                let ghost o = g.offset;
+                proof {
+                    lemma_remove_colon(o);
+                    assert(all_ascii(str_bytes(offset_condensed@)));
+                }
+//@ after 1 `let (hour_off_str, minute_off_str) = hm.split_at(2);`
+                proof {
+                    lemma_str_bytes_inj(sign_str@, "-"@);
+                    let oc = str_bytes(offset_condensed@);
+                    assert(hour_off_str.spec_bytes() =~= o.subrange(1, 3));
+                    assert(minute_off_str.spec_bytes() =~= (if o.len() == 5 { o.subrange(3, 5) } else { o.subrange(4, 6) }));
+                    assert(all_digits(hour_off_str.spec_bytes()) && all_digits(minute_off_str.spec_bytes()));
+                    lemma_dec_bound(hour_off_str.spec_bytes()); lemma_dec_bound(minute_off_str.spec_bytes());
+                }
+//@ before 1 `sign * (hour * 3600 + min * 60)`
+                proof {
+                    let hm_secs = hour * 3600 + min * 60;
+                    assert(0 <= hm_secs <= 362340);
+                    assert(sign == 1 || sign == -1);
+                    assert(-362340 <= sign * hm_secs <= 362340) by (nonlinear_arith) requires (sign == 1 || sign == -1), 0 <= hm_secs <= 362340;
+                    assert((sign == -1) == (o[0] == 0x2d)) by {
+                        assert(sign_str.spec_bytes() =~= seq![o[0]]);
+                    }
+                    assert(hour as int == dec(o.subrange(1, 3)));
+                    assert(min as int == (if o.len() == 5 { dec(o.subrange(3, 5)) } else { dec(o.subrange(4, 6)) }));
+                    if sign == 1 { assert(sign * hm_secs == hm_secs) by (nonlinear_arith) requires sign == 1; }
+                    else { assert(sign * hm_secs == -hm_secs) by (nonlinear_arith) requires sign == -1; }
+                    assert(sign * hm_secs == offset_seconds(o));
+                }
+//@ before 1 `let Some(offset) = FixedOffset::east_opt(offset_secs) else {`
+            proof {
+                assert(offset_secs as int == offset_seconds(g.offset));
+                assert(year as int == dec(g.year) && month as int == dec(g.month) && day as int == dec(g.day));
+                assert(hour as int == dec(g.hour) && minute as int == dec(g.minute) && second as int == dec(g.second));
+                assert(nanos as int == (if g.frac is Some { dec(frac9(g.frac->Some_0)) } else { 0 }));
+                assert(nanos < 1_000_000_000);
+            }
 //@ end
 }
